@@ -22,5 +22,14 @@ def run(ctx):
         ("lz4-3x1", ["-random", n(240, 1500), "-nodes", "3", "-numconns", "1", "-clients", "3", "-workers", "3", "-round", "120", "-compression", "lz4"] + ex, False, "compressed"),
         ("snappy-3x1", ["-random", n(160, 1000), "-nodes", "3", "-numconns", "1", "-clients", "2", "-workers", "3", "-round", "80", "-compression", "snappy"] + ex, False, "compressed"),
     ]
+    # the statements were prepared first by a client of a session with other settings (lz4), then by the plain clients: a
+    # re-PREPARE must be the statement in the form of the connection it is sent on
+    plans.append(("mixed-compression-3x1", ["-random", n(160, 1000), "-nodes", "3", "-numconns", "1", "-clients", "2", "-workers", "3", "-round", "80",
+                                            "-precompression", "lz4"] + ex, False, "mixed-compression"))
+    # ... and the other way round: a client of another session (lz4, or protocol version 3) prepares the statements last
+    plans.append(("mixed-compression-last-3x1", ["-random", n(120, 800), "-nodes", "3", "-numconns", "1", "-clients", "2", "-workers", "3", "-round", "60",
+                                                 "-postcompression", "lz4"] + ex, False, "mixed-compression"))
+    plans.append(("mixed-version-last-3x1", ["-random", n(120, 800), "-nodes", "3", "-numconns", "1", "-clients", "2", "-workers", "3", "-round", "60",
+                                             "-postcompression", "v3"] + ex, False, "mixed-version"))
     plans.append(("gated-d11", ["-scenario", "d11"], "gates", "gated-reprepare-send-fails"))
     rf.run_property(ctx, "C08", plans, scenario_filter=lambda s: "unprepared" in s["outcomes"], nscen=300)
